@@ -198,26 +198,75 @@ func checkC10(c *Ctx) {
 	// ---------------- R10.5 ----------------
 	chk := c.Method(ZapPath, "Logger", "check")
 	if c.Anchor("R10.5", "zap.Logger.check", chk != nil) {
-		var st *ssa.Store
-		AllInstrs(chk, func(i ssa.Instruction) {
-			if s, ok := i.(*ssa.Store); ok && strings.HasSuffix(Desc(s.Addr), ".ErrorOutput") {
-				st = s
-			}
-		})
+		// by path exploration (helpers inline): on every path where the core's answer was tested non-nil, the logger's
+		// error output is stored into the checked entry before check returns
 		ln := PN(chk.Params[0])
-		ok := st != nil && Desc(st.Val) == ln+".errorOutput"
-		if ok {
-			// every return reached with willWrite true is dominated by the store
-			isWW := func(a string) bool {
-				return strings.HasPrefix(a, "Check("+ln+".core,") && strings.HasSuffix(a, " != nil")
+		resolve := func(st *ConcState, v ssa.Value) ssa.Value {
+			for k := 0; k < 16; k++ {
+				nx := st.Step(v)
+				if nx == nil {
+					break
+				}
+				v = nx
 			}
-			ok = HasAtom(Guards(st), isWW)
-			for _, r := range Returns(chk) {
-				if HasAtom(Guards(r), isWW) && !Dominates(st, r) {
+			return v
+		}
+		seqs, trunc := ConcPaths(chk, ConcCfg{
+			Prune: true, MaxStates: 400000,
+			Event: func(in ssa.Instruction, st *ConcState) string {
+				switch x := in.(type) {
+				case *ssa.Store:
+					if fa, isFA := x.Addr.(*ssa.FieldAddr); isFA && fieldName(fa.X.Type(), fa.Field) == "ErrorOutput" {
+						if st.Desc(x.Val) == ln+".errorOutput" {
+							return "errout"
+						}
+						return "errout(?" + st.Desc(x.Val) + ")"
+					}
+				case *ssa.Return:
+					if len(st.cfg.stackDepth()) == 0 {
+						return "ret"
+					}
+				}
+				return ""
+			},
+			Branch: func(cond ssa.Value, taken bool, st *ConcState) string {
+				pol := taken
+				for k := 0; k < 8; k++ {
+					if u, isU := cond.(*ssa.UnOp); isU && u.Op == token.NOT {
+						cond, pol = u.X, !pol
+						continue
+					}
+					if nx := st.Step(cond); nx != nil {
+						cond = nx
+						continue
+					}
+					break
+				}
+				bo, isBO := cond.(*ssa.BinOp)
+				if !isBO || !IsNilConst(bo.Y) || (bo.Op != token.EQL && bo.Op != token.NEQ) {
+					return ""
+				}
+				if cl, isCall := resolve(st, bo.X).(*ssa.Call); isCall && IsCallTo(cl, "(go.uber.org/zap/zapcore.Core).Check") {
+					if pol == (bo.Op == token.NEQ) {
+						return "accepted"
+					}
+					return "declined"
+				}
+				return ""
+			},
+		})
+		ok := !trunc && len(seqs) > 0
+		nAcc := 0
+		for _, sq := range seqs {
+			if strings.Contains(sq, "accepted") {
+				nAcc++
+				i1, i2 := strings.Index(sq, "errout"), strings.LastIndex(sq, "ret")
+				if i1 < 0 || i2 < i1 || strings.Contains(sq, "errout(?") {
 					ok = false
 				}
 			}
 		}
+		ok = ok && nAcc > 0
 		c.Check(ok, "R10.5", FStr(chk), "error-output-threaded", chk.Pos(), "every entry that some core accepted carries the logger's error output before check returns")
 	}
 	_ = types.Typ
